@@ -71,6 +71,11 @@ source_generics = st.one_of(
     _cls_leaf.map(lambda t: ["CallableE", t]),
     st.tuples(st.sampled_from(["Iterable", "Sequence", "Awaitable", "FrozenSet", "AsyncIterator", "Deque", "Collection"]), _cls_leaf).map(lambda p: ["Gen1", p[0], p[1]]),
     st.tuples(st.sampled_from(["Mapping", "OrderedDict", "MutableMapping"]), st.sampled_from([["c", "str"], ["c", "int"]]), _cls_leaf).map(lambda p: ["Gen2", p[0], p[1], p[2]]),
+    # PEP 585 / PEP 604 spellings (what modern source annotations look like): list[C], dict[str, C], tuple[C, ...], type[C], C | None
+    st.tuples(st.sampled_from(["list", "set", "frozenset", "tupleE", "type"]), _cls_leaf).map(lambda p: ["P585", p[0], p[1]]),
+    st.tuples(st.sampled_from([["c", "str"], ["c", "int"]]), _cls_leaf).map(lambda p: ["P585", "dict", p[0], p[1]]),
+    st.tuples(_cls_leaf, st.sampled_from([["c", "None"], ["c", "int"], ["c", "nmfoo.Baz"]])).filter(lambda p: p[0] != p[1]).map(lambda p: ["P604", p[0], p[1]]),
+    st.tuples(_cls_leaf).map(lambda p: ["P585", "list", ["P604", p[0], ["c", "None"]]]),
 )
 general_types = st.recursive(st.one_of(leaf, leaf, leaf, source_generics), ext, max_leaves=8)
 
@@ -133,6 +138,14 @@ def build(s, C):
         return getattr(typing, s[1])[build(s[2], C)]
     if k == "Gen2":
         return getattr(typing, s[1])[build(s[2], C), build(s[3], C)]
+    if k == "P585":
+        if s[1] == "dict":
+            return dict[build(s[2], C), build(s[3], C)]
+        if s[1] == "tupleE":
+            return tuple[build(s[2], C), ...]
+        return {"list": list, "set": set, "frozenset": frozenset, "type": type}[s[1]][build(s[2], C)]
+    if k == "P604":
+        return build(s[1], C) | build(s[2], C)
     raise ValueError(s)
 
 
